@@ -3,7 +3,7 @@ import ast
 
 from ..model import (AnalysisError, FUNC_TYPES, U, call_attr, call_name, dotted, enclosing, enclosing_function, guard_texts, guards_ex,
                      short, walk_body, walk_local, ancestors, parent, const_str, kwarg, literal)
-from ..util import params, find_calls, assigns_to, trace, stmt_of, has_exit, syn_dominates
+from ..util import params, find_calls, assigns_to, trace, stmt_of, has_exit, syn_dominates, lexically_before
 from ..absint import Interp, State, Unsupported, T, F, UNK, unroll_literal_loops
 
 CFG = "insights.client.config"
@@ -61,7 +61,8 @@ def r2_cli_suppress(cx):
     for x in adds:
         opts = [k.value for k in x.keywords if k.arg is None][0]
         st = [a for a in walk_body(fn.body) if isinstance(a, ast.Assign) and U(a.targets[0]) == "%s['default']" % U(opts)]
-        ok = len(st) == 1 and U(st[0].value) == "argparse.SUPPRESS" and syn_dominates(st[0], x) and not guard_texts(st[0], stop=enclosing(x, ast.For))
+        ok = len(st) == 1 and U(st[0].value) == "argparse.SUPPRESS" and (syn_dominates(st[0], x) or lexically_before(st[0], x)) \
+            and guard_texts(st[0], stop=enclosing(x, ast.For)) <= guard_texts(x, stop=enclosing(x, ast.For)) and enclosing(st[0], ast.For) is enclosing(x, ast.For)
         cx.require(ok, x, "every CLI option is registered with default=argparse.SUPPRESS (an option not given does not override file/env values)",
                    construct="%s ; %s" % (short(st[0]) if st else "(no default assignment)", short(x)))
     pa = [x for x in find_calls(fn.body, attr="parse_args")]
@@ -136,7 +137,7 @@ def r4_coercion(cx):
     gi = [x for x in find_calls(fl.body, attr="getint")]
     gf = [x for x in find_calls(fl.body, attr="getfloat")]
     gb = [x for x in find_calls(fl.body, attr="getboolean")]
-    ok = bool(gi) and set(t for t, p in guard_texts(gi[0], stop=enclosing(gi[0], ast.For)) if p) == set(["key == 'retries' or key == 'cmd_timeout'"]) and \
+    ok = bool(gi) and set(t for t, p in guard_texts(gi[0], stop=enclosing(gi[0], ast.For)) if p) == set(["key in ('retries', 'cmd_timeout')"]) and \
         bool(gf) and set(t for t, p in guard_texts(gf[0], stop=enclosing(gf[0], ast.For)) if p) == set(["key == 'http_timeout'"])
     cx.require(ok, gi[0] if gi else fl, "file: the same three numeric options are coerced with getint / getfloat", construct="getint: retries, cmd_timeout; getfloat: http_timeout")
     ok = bool(gb) and ("key in DEFAULT_BOOLS", True) in guard_texts(gb[0], stop=enclosing(gb[0], ast.For))
